@@ -658,6 +658,7 @@ class WrappedTable:
         :param wrapped_field: The field to extract the information from.
         """
         self.ormatic.imported_modules.add("typing_extensions")
+        self.ormatic.imported_modules.add(wrapped_field.type_endpoint.__module__)
         column_name = wrapped_field.field.name
         container = Set if issubclass(wrapped_field.container_type, set) else List
         column_type = f"Mapped[{module_and_class_name(container)}[{module_and_qualified_class_name(wrapped_field.type_endpoint)}]]"
